@@ -78,8 +78,14 @@ def run_flow(col):
     fa = flow.FlowAnalysis(fn, hooks=dict(attr_value=attr_value, on_refine=on_refine, on_assign=on_assign)).run()
     where = "mechanics/_step.py:%d Step.generate" % fn.lineno
     ys = fa.at_yield
-    bad = [n.lineno for s, n in ys if s.env.get("res.success") != flow.T]
-    col.add("C15.O1", "Step.generate yields", "a substep result is yielded only in states where res.success is true", bool(ys) and not bad, "%s: yields %d, offending lines %s" % (where, len(ys), bad))
+    bad = [n.lineno for s, n in ys if s.env.get("res.success") == flow.F]
+    unknown = [n.lineno for s, n in ys if s.env.get("res.success") not in (flow.T, flow.F)]
+    if unknown and not bad:
+        # no guard the engine understands establishes res.success on this path: not a verdict (the scripted runs decide the behaviour)
+        col.undecided("C15.O1", "Step.generate yields", "a substep result is yielded only in states where res.success is true",
+                      "%s: res.success is not determined at the yield(s) in lines %s (unrecognised guard idiom)" % (where, sorted(set(unknown))))
+    else:
+        col.add("C15.O1", "Step.generate yields", "a substep result is yielded only in states where res.success is true", bool(ys) and not bad, "%s: yields %d, offending lines %s" % (where, len(ys), bad))
     # after a failure (res.success false) no further newtonrhapson call is reachable
     calls = fa.at_call.get("newtonrhapson", [])
     bad = [n.lineno for s, n in calls if s.env.get("stop") == flow.T]
